@@ -501,6 +501,73 @@ func genC07(g *gen) {
 	g.line("Definition gen_adapter_capacity : N := %d.", adapterCap)
 	g.line("Definition gen_adapter_drops_when_full : bool := %s.", coqBool(adapterDrops))
 
+	// stream.Stream.PushData blocks until there is room or the stream is closed:
+	// its selects have no clause other than the buffer send, <-s.closed and the
+	// default of the initial closed check (no timer, no context, no drop)
+	pushBlocking := false
+	if fd := findFuncInDir("internal/stream", "Stream", "PushData"); fd != nil && fd.Body != nil {
+		pushBlocking = true
+		sends := 0
+		ast.Inspect(fd.Body, func(n ast.Node) bool {
+			sel, ok := n.(*ast.SelectStmt)
+			if !ok {
+				return true
+			}
+			hasSend, hasDefault := false, false
+			for _, c := range sel.Body.List {
+				cc := c.(*ast.CommClause)
+				switch {
+				case cc.Comm == nil:
+					hasDefault = true
+				case strings.HasSuffix(strings.TrimSpace(src(cc.Comm)), "<-s.closed"):
+				case strings.HasPrefix(src(cc.Comm), "s.readBuffer <-"):
+					hasSend = true
+					sends++
+				default:
+					pushBlocking = false
+					g.note("PushData: select clause %q", src(cc.Comm))
+				}
+			}
+			if hasSend && hasDefault {
+				pushBlocking = false
+			}
+			return true
+		})
+		if sends != 1 {
+			pushBlocking = false
+		}
+		if strings.Contains(src(fd.Body), "time.") {
+			pushBlocking = false
+		}
+	}
+	g.line("Definition gen_pushdata_blocks_until_room : bool := %s.", coqBool(pushBlocking))
+
+	// shell.Handler.writeEncrypted: Encrypt and WriteStreamData happen inside one
+	// writeMu critical section (Lock before both; Unlock deferred or after both)
+	shellAtomic := false
+	if fd := findFuncInDir("internal/shell", "Handler", "writeEncrypted"); fd != nil && fd.Body != nil {
+		lock, enc, wsd, unlock, deferred := -1, -1, -1, -1, false
+		for i, st := range fd.Body.List {
+			t := src(st)
+			switch {
+			case strings.HasSuffix(strings.TrimSpace(t), "writeMu.Lock()") && lock < 0:
+				lock = i
+			case strings.HasPrefix(t, "defer ") && strings.Contains(t, "writeMu.Unlock()"):
+				deferred = lock >= 0
+			case strings.HasSuffix(strings.TrimSpace(t), "writeMu.Unlock()"):
+				unlock = i
+			}
+			if strings.Contains(t, ".Encrypt(") && enc < 0 {
+				enc = i
+			}
+			if strings.Contains(t, ".WriteStreamData(") && wsd < 0 {
+				wsd = i
+			}
+		}
+		shellAtomic = lock >= 0 && enc > lock && wsd > lock && (deferred && unlock < 0 || !deferred && unlock > wsd)
+	}
+	g.line("Definition gen_shell_seal_and_write_one_section : bool := %s.", coqBool(shellAtomic))
+
 	var items []string
 	for _, r := range rows {
 		items = append(items, fmt.Sprintf("(%s, (%d, %d, %s))", coqString(r.name), r.buf, r.pre, coqBool(r.split)))
